@@ -144,6 +144,15 @@ impl<'a> IExec<'a> {
                         ctx.count("probe.inbound_undecodable_minter");
                         vec![9, 9, 9]
                     }
+                    InMinter::NonAddress(k) => {
+                        ctx.count("probe.inbound_minter_is_xdr_of_a_non_address");
+                        match k % 4 {
+                            0 => xdr_of(&su32(7)),
+                            1 => xdr_of(&sstr("minter")),
+                            2 => xdr_of(&sbytes(&[1u8; 32])),
+                            _ => xdr_of(&svec(vec![saddr(&self.h[2])])),
+                        }
+                    }
                 };
                 inner_tag = w(1);
                 if let Dev::InnerTypeUnsupported(t) = dev {
